@@ -357,6 +357,17 @@ func VH_c12_seq_functions() {
 		}
 	}
 	zz.Assert(ok, "seq.Zip")
+	// operands of different lengths: the shorter decides, in either position
+	ka, kb := zz.IntIn("zip.la", 0, len(in)), zz.IntIn("zip.lb", 0, len(in))
+	zq := seq.Zip(s.Take(ka), s.Take(kb))
+	ok = len(zq) == ka || len(zq) == kb
+	ok = ok && len(zq) <= ka && len(zq) <= kb
+	for i := range zq {
+		if ok && (zq[i].I1 != in[i] || zq[i].I2 != in[i]) {
+			ok = false
+		}
+	}
+	zz.Assert(ok, "seq.Zip: length of the shorter operand")
 	m2 := seq.Map2(s.Take(2), s.Drop(2), f2)
 	var e2 []int
 	for _, a := range s.Take(2) {
